@@ -26,8 +26,8 @@ PASS_NAMES = ["critical_path", "capacity_purge"]  # bit 0, bit 1
 CONV_TRIVIAL_MIN_BONUS = 1  # MinExpression::parse: `minUtility->addTerm(1)` when no child is enforceable
 
 TIERS = {
-    "quick": {"sol_cap": 40, "extremal": 3, "gs": (1, 2, 3), "chunk": 12, "procs": 14, "random": 70, "bound": None},
-    "thorough": {"sol_cap": 150, "extremal": 6, "gs": (1, 2, 3), "chunk": 40, "procs": 15, "random": 1500, "bound": "B3"},
+    "quick": {"sol_cap": 40, "extremal": 3, "gs": (1, 2, 3), "chunk": 20, "procs": 14, "random": 70, "bound": None},
+    "thorough": {"sol_cap": 150, "extremal": 6, "gs": (1, 2, 3), "chunk": 160, "procs": 15, "random": 1500, "bound": "B3"},
 }
 
 
@@ -409,6 +409,8 @@ def _chunk_in(ci, trees, tier, cfg, binary, res, scratch):
                 continue
             ex["readbacks"] += 1
             rec = tla_rec(rid, tree, inst["ti"] + 1, model_ix[mh], x, rb)
+            if any(0 <= e["start"] < tree["now"] for e in rec["pl"]):
+                _bump(ex.setdefault("observations", {}), "placements_starting_before_now")
             sig = hashlib.sha1(json.dumps({k2: v for k2, v in rec.items() if k2 != "id"}, sort_keys=True).encode()).hexdigest()
             if sig in seen_recs:
                 ex["records_deduplicated"] += 1
@@ -567,6 +569,29 @@ def _detail(tree, inst, x, rb, dtext):
 # ---------------------------------------------------------------------------
 
 
+def replay(d: dict) -> int:
+    """`run.py --replay <file>`: push the stored tree through the whole pipeline again (all
+    discretisations / pass subsets it admits) and report whether the stored clause still fails."""
+    det = d.get("detail", {})
+    tj = det.get("tree_json")
+    if not tj:
+        print("replay: no tree stored in this file")
+        return 2
+    tree = dict(tj)
+    tree.update(id="replay", tags=["replay"], H=0)
+    try:
+        binary, _ = c20_driver.ensure_built()
+    except c20_driver.DriverBuildError as e:
+        print(f"replay: the driver does not build: {str(e)[-500:]}")
+        return 1
+    res = _chunk(0, [tree], "quick", binary)
+    hits = [v for v in res.violations if v.clause == d.get("clause")]
+    for v in res.violations:
+        print(f"replay: {v.clause} key={v.key}\n        {v.what[:300]}")
+    print(f"replay: {len(res.violations)} failing clause instance(s), {len(hits)} of the stored clause {d.get('clause')}")
+    return 1 if hits else 0
+
+
 def run(tier: str) -> CheckResult:
     cfg = TIERS[tier]
     res = CheckResult("C20", tier)
@@ -578,6 +603,7 @@ def run(tier: str) -> CheckResult:
         "conventions fixed by the pinned code and named in spec/Strl.tla: ConvTrivialMinBonus=1; Min/LessThan couple placement-dependent children all-or-nothing; shared sub-expressions count once per parent; Allocation holds capacity unconditionally with utility 0",
     ]
     res.notes += [
+        "observation (not a C20 clause): a WindowedChoose whose window opens before `now` is offered start times in the past (ChooseExpression refuses them); counted in coverage.observations",
         "not covered: the Gurobi/CPLEX/OR-tools C++ back-ends and the pybind11 module (cannot be built here); useOverlapConstraints=true (non-integral big-M rows); DiscretizationSelectorOptimizationPass (dynamic discretisation); solver hints / solution cache",
     ]
     try:
@@ -593,7 +619,11 @@ def run(tier: str) -> CheckResult:
         res.notes.append(f"VERIF_C20_ONLY={only}: corpus restricted to {len(trees)} trees")
     res.extra["corpus"] = c20_gen.describe(trees)
     res.extra["constants"] = {"sol_cap": cfg["sol_cap"], "discretisations": list(cfg["gs"]), "pass_subsets": 4, "seed": seed()}
-    chunks = [trees[i : i + cfg["chunk"]] for i in range(0, len(trees), cfg["chunk"])]
+    # as many chunks as workers (or more, of bounded size), filled round-robin so that the
+    # expensive families spread out; fewer, larger TLC batches amortise the JVM start
+    nchunks = max(cfg["procs"], -(-len(trees) // cfg["chunk"]))
+    nchunks = max(1, min(nchunks, len(trees)))
+    chunks = [trees[i::nchunks] for i in range(nchunks)]
     parts = parallel(_chunk, [(ci, ch, tier, binary) for ci, ch in enumerate(chunks)], procs=cfg["procs"])
     for p in parts:
         res.states += p.states
@@ -614,5 +644,14 @@ def run(tier: str) -> CheckResult:
     for k in ("driver_s", "solve_s"):
         res.extra[k] = round(res.extra.get(k, 0), 1)
     res.extra["chunk_wall_s"] = {"max": max(res.extra.get("chunk_wall_s", [0])), "sum": round(sum(res.extra.get("chunk_wall_s", [0])), 1)}
+    keys = {}
+    for v in res.violations:
+        keys[v.key] = keys.get(v.key, 0) + 1
+    res.extra["finding_keys"] = dict(sorted(keys.items()))
+    # one violation per key is enough for the verdict; keep the evidence / replay set small
+    first = {}
+    for v in res.violations:
+        first.setdefault(v.key, v)
+    res.violations = list(first.values())
     res.samples = res.samples[:6]
     return res
